@@ -4,19 +4,31 @@ from tok_common import TokError, imm, split_ops, parse_mark
 
 REGS = {"rsp", "rcx", "rbx", "rbp", "rax", "rdx", "rsi", "rdi",
         "r8", "r9", "r10", "r11", "r12", "r13", "r14", "r15"}
-MEM = re.compile(r"^(qword\s+)?\[\s*(\w+)\s*\+\s*(-?\d+)\s*\]$")
+REGS32 = {"eax": "rax", "ecx": "rcx", "edx": "rdx", "ebx": "rbx", "ebp": "rbp", "esi": "rsi", "edi": "rdi", "esp": "rsp",
+          **{"r%dd" % i: "r%d" % i for i in range(8, 16)}}
+MEM = re.compile(r"^(qword\s+)?\[\s*(\w+)\s*(?:\+\s*(\w+)\s*(?:\*\s*([1248]))?\s*)?(?:([+-])\s*(\d+)\s*)?\]$")
 REL = re.compile(r"^\[\s*rel\s+(\w+)\s*\]$")
 IDENT = re.compile(r"^[A-Za-z_.$@?][\w.$@?]*$")
+
+def _bad(s):
+    raise TokError("memory base is not a register: " + s)
+
 
 def operand(s):
     s = s.strip()
     if s in REGS:
         return {"k": "reg", "r": s}
+    if s in REGS32:
+        return {"k": "reg32", "r": REGS32[s]}
     m = MEM.match(s)
+    if m and m.group(3) and m.group(3).isdigit() and not m.group(4) and not m.group(5):
+        m2 = re.match(r"^(qword\s+)?\[\s*(\w+)\s*\+\s*(\d+)\s*\]$", s)      # [base + disp]
+        return {"k": "mem", "base": m2.group(2), "off": int(m2.group(3)), "index": "", "scale": 1} if m2.group(2) in REGS else _bad(s)
     if m:
-        if m.group(2) not in REGS:
-            raise TokError("memory base is not a register: " + s)
-        return {"k": "mem", "base": m.group(2), "off": int(m.group(3))}
+        if m.group(2) not in REGS or (m.group(3) and m.group(3) not in REGS):
+            raise TokError("memory base / index is not a register: " + s)
+        off = int(m.group(6) or 0) * (-1 if m.group(5) == "-" else 1)
+        return {"k": "mem", "base": m.group(2), "off": off, "index": m.group(3) or "", "scale": int(m.group(4) or 1)}
     m = REL.match(s)
     if m:
         return {"k": "rel", "l": m.group(1)}
@@ -27,7 +39,9 @@ def operand(s):
     raise TokError("operand? " + s)
 
 KNOWN = {"add", "sub", "imul", "idiv", "cqo", "jmp", "lea", "mov", "cmp", "je", "jne", "jl", "jle",
-         "jg", "jge", "push", "pop", "call", "ret"}
+         "jg", "jge", "push", "pop", "call", "ret",
+         # forms the backend does not print today but a different instruction selection may: modelled in spec/X86.tla as well
+         "test", "xor", "and", "or", "inc", "dec", "neg", "not", "shl", "sal", "sar", "shr", "nop", "jz", "jnz", "js", "jns"}
 
 def tokenize(text):
     """-> (instructions, directives) ; instructions: list of {"op", "a"} / label / mark records"""
